@@ -19,6 +19,18 @@ package main
 // (/proc/<pid>/stat) while an answer is outstanding; 20 s of CPU for one input of at most
 // 64 KiB is a violation ("nonterminating"), a stall without CPU consumption is inconclusive.
 //
+// Answers are written in bulk (one write per request batch, not one per decode). What the
+// per-decode flush used to provide — "the first unanswered (sub-)request is the culprit" — now
+// comes from a progress page both processes map (progress.go): before every decode the server
+// stores there the index of the answer it is working on, the input mode of that decode and its
+// CPU clock at the start. The page survives the server: after a death the worker reads which
+// decode was running (the culprit), re-sends the decodes whose answers were still buffered
+// and goes on behind the culprit. The CPU watchdog reads the same page.
+//
+// Input modes (inmode.go): every buffer-mode (sub-)request carries a mask of extra input modes;
+// the server decodes the input once per mode and reports outcome, result fingerprint
+// comparison and writes outside the input per mode.
+//
 // Request kinds (mode): modeHostile — one input, deep decode; modeAdmit — one input, strict
 // decode; modeTrunc — one valid encoding and a list of cut offsets, one answer per prefix;
 // modeNet — one valid encoding and a list of connection scenarios, one answer per scenario
@@ -34,6 +46,7 @@ import (
 	"path/filepath"
 	"runtime"
 	"runtime/debug"
+	"runtime/pprof"
 	"strconv"
 	"strings"
 	"syscall"
@@ -44,8 +57,8 @@ const (
 	cpuLimit       = 20 * time.Second  // CPU budget of one decode
 	cpuAbandon     = 1 * time.Second   // CPU after which a decode is abandoned once the process has paid ntFullPrice budgets (main.go)
 	stallLimit     = 180 * time.Second // wall time without an answer and without CPU use ⇒ inconclusive
-	reqHeaderLen   = 12
-	respLen        = 1 + 8 + 8 + 8
+	reqHeaderLen   = 16
+	respLen        = 1 + 8 + 8 + 8 + 8 + 2*nIModes
 	maxBatchBytes  = 40 << 10
 	retireAfter    = 128 << 20 // a server that allocated this much in one decode is replaced
 	serverHeadroom = 1 << 30   // address space a decode server may add to what it starts with
@@ -83,19 +96,24 @@ func selfCPU() time.Duration {
 
 // one measured decode
 type measure struct {
-	Panicked bool
-	Consumed bool // strict decodes: the stream reported no unread byte after a normal return
-	Alloc    uint64
-	CPU      time.Duration
+	Panicked  bool
+	Consumed  bool // strict decodes: the stream reported no unread byte after a normal return
+	ViewInput bool // the result refers to memory of the (exact-copy) input
+	Alloc     uint64
+	CPU       time.Duration
 }
 
-func measuredDecode(d *decoder, deep bool, b []byte) measure {
+// cpuMark: the server's CPU clock taken at the start of the last measured decode (the start
+// of the (sub-)request all of whose input modes share one CPU budget)
+var cpuMark time.Duration
+
+func measuredDecode(d *decoder, deep bool, b []byte) (measure, outcome) {
 	var m0, m1 runtime.MemStats
-	c0 := selfCPU()
+	c0 := cpuMark
 	runtime.ReadMemStats(&m0)
 	o := runDecode(d, deep, b)
 	runtime.ReadMemStats(&m1)
-	return measure{o.Panicked, o.Consumed, m1.TotalAlloc - m0.TotalAlloc, selfCPU() - c0}
+	return measure{Panicked: o.Panicked, Consumed: o.Consumed, Alloc: m1.TotalAlloc - m0.TotalAlloc, CPU: selfCPU() - c0}, o
 }
 
 func serverMain() {
@@ -111,13 +129,27 @@ func serverMain() {
 		rl.Cur = vm + serverHeadroom
 		syscall.Setrlimit(syscall.RLIMIT_AS, &rl)
 	}
+	if pf := os.Getenv("WC04_PROF"); pf != "" {
+		f, _ := os.Create(fmt.Sprintf("%s.%d", pf, os.Getpid()))
+		pprof.StartCPUProfile(f)
+		defer pprof.StopCPUProfile()
+	}
+	pg := openProgress(os.Getenv("WC04_PROGRESS"))
+	ms := newModeState()
 	br := bufio.NewReaderSize(os.Stdin, 1<<17)
 	bw := bufio.NewWriterSize(os.Stdout, 1<<16)
 	hdr := make([]byte, reqHeaderLen)
 	resp := make([]byte, respLen)
-	// every answer leaves the process before the next decode starts: the first unanswered
-	// (sub-)request is then exactly the one that ended the process
-	answer := func(m measure) {
+	var seq uint64 // index of the answer being worked on
+	// the progress page says which decode is running; answers are flushed in bulk (before the
+	// server waits for more input)
+	begin := func() {
+		cpuMark = selfCPU()
+		pg.start(seq, cpuMark)
+	}
+	prog := func(im int) { pg.mode(im) }
+	answer := func(fr fullResult) {
+		m := fr.m
 		resp[0] = 0
 		if m.Panicked {
 			resp[0] |= 1
@@ -125,9 +157,18 @@ func serverMain() {
 		if m.Consumed {
 			resp[0] |= 4
 		}
+		if m.ViewInput {
+			resp[0] |= 8
+		}
 		binary.BigEndian.PutUint64(resp[1:], m.Alloc)
 		binary.BigEndian.PutUint64(resp[9:], uint64(m.CPU))
 		binary.BigEndian.PutUint64(resp[17:], uint64(selfCPU()))
+		binary.BigEndian.PutUint64(resp[25:], fr.fp)
+		for i := 0; i < nIModes; i++ {
+			binary.BigEndian.PutUint16(resp[33+2*i:], fr.x[i])
+		}
+		seq++
+		pg.idle(seq)
 		if m.Alloc > retireAfter {
 			// A giant block was handed out. Reusing its address range would make the runtime
 			// zero (and so touch) gigabytes on every later giant request; a fresh process gets
@@ -138,9 +179,11 @@ func serverMain() {
 			os.Exit(0)
 		}
 		bw.Write(resp)
-		bw.Flush()
 	}
 	for {
+		if br.Buffered() < reqHeaderLen {
+			bw.Flush()
+		}
 		if _, err := io.ReadFull(br, hdr); err != nil {
 			bw.Flush()
 			return
@@ -148,28 +191,40 @@ func serverMain() {
 		di := int(binary.BigEndian.Uint32(hdr[0:4]))
 		mode := int(binary.BigEndian.Uint32(hdr[4:8]))
 		n := int(binary.BigEndian.Uint32(hdr[8:12]))
+		tail := int(binary.BigEndian.Uint32(hdr[12:16]))
+		mask := mode >> 8 & 0xff
+		mode &= 0xff
+		if br.Buffered() < n {
+			bw.Flush()
+		}
 		buf := make([]byte, n)
 		if _, err := io.ReadFull(br, buf); err != nil {
 			return
 		}
 		d := &decoders[di]
 		switch mode {
-		case modeHostile:
-			answer(measuredDecode(d, true, buf))
-		case modeAdmit:
-			answer(measuredDecode(d, false, buf))
+		case modeHostile, modeAdmit:
+			begin()
+			redo := func() { ms.canC.reset(); ms.canD.reset() }
+			answer(decodeModes(d, mode == modeHostile, buf, mask, func(im int) *staged { return ms.stageComplete(im, buf, tail) }, redo, prog))
 		case modeTrunc:
 			k := int(binary.BigEndian.Uint32(buf))
 			cuts, enc := buf[4:4+4*k], buf[4+4*k:]
+			ts := ms.newTruncStage(enc)
 			for i := 0; i < k; i++ {
-				cut := int(binary.BigEndian.Uint32(cuts[4*i:]))
-				answer(measuredDecode(d, false, enc[:cut]))
+				cw := binary.BigEndian.Uint32(cuts[4*i:])
+				cut, mask := int(cw&0xffffff), int(cw>>24) // per-cut mask of extra input modes
+				exact := make([]byte, cut)
+				copy(exact, enc)
+				begin()
+				answer(decodeModes(d, false, exact, mask, func(im int) *staged { return ts.stage(im, cut) }, ts.dirty, prog))
 			}
 		case modeNet:
 			k := int(binary.BigEndian.Uint32(buf))
 			sc, enc := buf[4:4+netScenLen*k], buf[4+netScenLen*k:]
 			for i := 0; i < k; i++ {
-				answer(netDecode(d, enc, parseNetScen(sc[netScenLen*i:])))
+				begin()
+				answer(fullResult{m: netDecode(d, enc, parseNetScen(sc[netScenLen*i:]))})
 			}
 		}
 	}
@@ -178,33 +233,37 @@ func serverMain() {
 // ---- client side ----------------------------------------------------------------------
 
 type srvResp struct {
-	m      measure
-	cumCPU time.Duration
+	fr     fullResult
 	retire bool
 	err    error
 }
 
 type server struct {
-	cmd     *exec.Cmd
-	in      io.WriteCloser
-	ch      chan srvResp
-	errPath string
-	lastCPU time.Duration // server's cumulative CPU at its last answer
-	n       int
+	cmd      *exec.Cmd
+	in       io.WriteCloser
+	ch       chan srvResp
+	errPath  string
+	progPath string
+	prog     *progress
+	n        uint64 // answers received from this server
 }
 
 var serverSeq int
 
 func startServer(outDir string) (*server, error) {
 	serverSeq++
-	s := &server{errPath: filepath.Join(outDir, fmt.Sprintf("server-%d.stderr", serverSeq))}
+	s := &server{errPath: filepath.Join(outDir, fmt.Sprintf("server-%d.stderr", serverSeq)),
+		progPath: filepath.Join(outDir, fmt.Sprintf("server-%d.progress", serverSeq))}
 	exe, err := os.Executable()
 	if err != nil {
 		return nil, err
 	}
+	if s.prog, err = createProgress(s.progPath); err != nil {
+		return nil, err
+	}
 	s.cmd = exec.Command(exe)
 	// two Ps: one decoding goroutine plus the collector; keeps start-up and crash dumps small
-	s.cmd.Env = append(os.Environ(), "WC04_SERVER=1", "GOMAXPROCS=2")
+	s.cmd.Env = append(os.Environ(), "WC04_SERVER=1", "GOMAXPROCS=1", "WC04_PROGRESS="+s.progPath)
 	ef, err := os.Create(s.errPath)
 	if err != nil {
 		return nil, err
@@ -221,7 +280,7 @@ func startServer(outDir string) (*server, error) {
 		return nil, err
 	}
 	ef.Close()
-	s.ch = make(chan srvResp, 1024)
+	s.ch = make(chan srvResp, 8192)
 	go func() {
 		br := bufio.NewReaderSize(out, 1<<16)
 		for {
@@ -230,8 +289,14 @@ func startServer(outDir string) (*server, error) {
 				s.ch <- srvResp{err: err}
 				return
 			}
-			s.ch <- srvResp{m: measure{buf[0]&1 == 1, buf[0]&4 != 0, binary.BigEndian.Uint64(buf[1:]), time.Duration(binary.BigEndian.Uint64(buf[9:]))},
-				cumCPU: time.Duration(binary.BigEndian.Uint64(buf[17:])), retire: buf[0]&2 != 0}
+			r := srvResp{retire: buf[0]&2 != 0}
+			r.fr.m = measure{Panicked: buf[0]&1 == 1, Consumed: buf[0]&4 != 0, ViewInput: buf[0]&8 != 0,
+				Alloc: binary.BigEndian.Uint64(buf[1:]), CPU: time.Duration(binary.BigEndian.Uint64(buf[9:]))}
+			r.fr.fp = binary.BigEndian.Uint64(buf[25:])
+			for i := 0; i < nIModes; i++ {
+				r.fr.x[i] = binary.BigEndian.Uint16(buf[33+2*i:])
+			}
+			s.ch <- r
 		}
 	}()
 	return s, nil
@@ -260,6 +325,12 @@ func procCPU(pid int) (time.Duration, bool) {
 	return time.Duration(ut+st) * 10 * time.Millisecond, true
 }
 
+func (s *server) cleanup() {
+	os.Remove(s.errPath)
+	os.Remove(s.progPath)
+	s.prog.close()
+}
+
 func (s *server) kill() {
 	if s.cmd.Process != nil {
 		s.cmd.Process.Kill()
@@ -285,13 +356,14 @@ func (s *server) stop() {
 		s.cmd.Process.Kill()
 		<-done
 	}
-	os.Remove(s.errPath)
+	s.cleanup()
 }
 
 type death struct {
 	Kind   string // fatal | nonterminating | abandoned | stall | lost
 	Reason string
 	Stderr string
+	Mode   int // input mode of the decode that was running (imExact …)
 }
 
 // diedHow inspects the stderr of a server that went away by itself.
@@ -312,9 +384,9 @@ func (s *server) diedHow() death {
 		}
 	}
 	if first != "" {
-		return death{"fatal", first, txt}
+		return death{Kind: "fatal", Reason: first, Stderr: txt}
 	}
-	return death{"lost", fmt.Sprintf("decode server ended without a runtime message (%v)", err), txt}
+	return death{Kind: "lost", Reason: fmt.Sprintf("decode server ended without a runtime message (%v)", err), Stderr: txt}
 }
 
 // one request of a batch. modeHostile / modeAdmit: b is the input, one answer. modeTrunc: b is
@@ -326,6 +398,11 @@ type req struct {
 	b    []byte
 	cuts []int
 	scen []netScen
+	// extra input modes (mask of 1<<imResliced …; modeTrunc: one mask per cut) and the number of
+	// bytes laid out behind a complete input (modeHostile / modeAdmit)
+	imask    int
+	cutMasks []int
+	tail     int
 	// multi-answer requests: after this many deaths of the server inside this request the
 	// remaining sub-requests are not sent any more (res.skipped); 0 = no limit
 	maxDeaths int
@@ -341,20 +418,20 @@ func (q *req) answers() int {
 	return 1
 }
 
-// wire serialises the request with its sub-requests from..end.
-func (q *req) wire(from int) []byte {
+// wire serialises the request with its sub-requests from..to.
+func (q *req) wire(from, to int) []byte {
 	var payload []byte
 	switch q.mode {
 	case modeTrunc:
-		cs := q.cuts[from:]
+		cs := q.cuts[from:to]
 		payload = make([]byte, 0, 4+4*len(cs)+len(q.b))
 		payload = binary.BigEndian.AppendUint32(payload, uint32(len(cs)))
-		for _, k := range cs {
-			payload = binary.BigEndian.AppendUint32(payload, uint32(k))
+		for i, k := range cs {
+			payload = binary.BigEndian.AppendUint32(payload, uint32(k)|uint32(q.cutMasks[from+i])<<24)
 		}
 		payload = append(payload, q.b...)
 	case modeNet:
-		ss := q.scen[from:]
+		ss := q.scen[from:to]
 		payload = make([]byte, 0, 4+netScenLen*len(ss)+len(q.b))
 		payload = binary.BigEndian.AppendUint32(payload, uint32(len(ss)))
 		for _, sc := range ss {
@@ -366,44 +443,55 @@ func (q *req) wire(from int) []byte {
 	}
 	out := make([]byte, 0, reqHeaderLen+len(payload))
 	out = binary.BigEndian.AppendUint32(out, uint32(q.dec))
-	out = binary.BigEndian.AppendUint32(out, uint32(q.mode))
+	out = binary.BigEndian.AppendUint32(out, uint32(q.mode|q.imask<<8))
 	out = binary.BigEndian.AppendUint32(out, uint32(len(payload)))
+	out = binary.BigEndian.AppendUint32(out, uint32(q.tail))
 	return append(out, payload...)
 }
 
 // result of one (sub-)request: a measurement, the way the server died on it, or skipped
 type res struct {
 	m       measure
+	fp      uint64
+	x       [nIModes]uint16
 	died    *death
 	skipped bool
 }
 
-// runBatch performs the requests in order and returns, per request, one result per answer. A
-// server death is attributed to the first unanswered (sub-)request; what remains is re-sent to
-// a fresh server. The CPU one decode may burn before the server is killed is cpuBudget():
-// cpuLimit (⇒ death kind "nonterminating") or, when the process has already paid for its
-// share of non-terminating decodes, cpuAbandon (⇒ death kind "abandoned", not a verdict).
+// runBatch performs the requests in order and returns, per request, one result per answer.
+// Answers arrive in bulk. When the server goes away, the progress page names the decode that
+// was running: that (sub-)request is the culprit and gets the death as its result; the
+// (sub-)requests before it whose answers were lost in the server's output buffer are sent
+// again to a fresh server, and the batch goes on behind the culprit. The CPU one (sub-)request
+// (all its input modes together) may burn before the server is killed is cpuBudget(): cpuLimit
+// (⇒ death kind "nonterminating") or, when the process has already paid for its share of
+// non-terminating decodes, cpuAbandon (⇒ death kind "abandoned", not a verdict).
 func runBatch(sp **server, outDir string, reqs []req) ([][]res, error) {
 	out := make([][]res, len(reqs))
+	type pos struct{ r, s int }
+	var flat []pos
 	for i := range reqs {
 		out[i] = make([]res, reqs[i].answers())
-	}
-	deaths := make([]int, len(reqs))
-	next, sub := 0, 0 // first unanswered request / answer within it
-	// skip over requests without answers
-	norm := func() {
-		for next < len(reqs) && sub >= len(out[next]) {
-			next++
-			sub = 0
+		for j := range out[i] {
+			flat = append(flat, pos{i, j})
 		}
 	}
-	norm()
-	for next < len(reqs) {
-		if q := &reqs[next]; q.maxDeaths > 0 && deaths[next] >= q.maxDeaths {
-			for ; sub < len(out[next]); sub++ {
-				out[next][sub] = res{skipped: true}
+	done := make([]bool, len(flat))
+	deaths := make([]int, len(reqs))
+	cur := 0
+	for cur < len(flat) {
+		if done[cur] {
+			cur++
+			continue
+		}
+		p := flat[cur]
+		if q := &reqs[p.r]; q.maxDeaths > 0 && deaths[p.r] >= q.maxDeaths {
+			for ; cur < len(flat) && flat[cur].r == p.r; cur++ {
+				if !done[cur] {
+					out[p.r][flat[cur].s] = res{skipped: true}
+					done[cur] = true
+				}
 			}
-			norm()
 			continue
 		}
 		if *sp == nil {
@@ -415,27 +503,54 @@ func runBatch(sp **server, outDir string, reqs []req) ([][]res, error) {
 		}
 		s := *sp
 		limit := cpuBudget()
-		// send a slice of the remaining requests that fits the pipe (or a single large one)
+		// send the open (sub-)requests from cur on, as many as fit the pipe (or a single large
+		// one), stopping in front of the first one that already has its result
 		var buf []byte
-		end := next
-		for end < len(reqs) {
-			from := 0
-			if end == next {
-				from = sub
+		end := cur
+		for end < len(flat) && !done[end] {
+			r := flat[end].r
+			from := flat[end].s
+			to := from
+			for end+(to-from) < len(flat) && flat[end+(to-from)].r == r && !done[end+(to-from)] {
+				to++
 			}
-			w := reqs[end].wire(from)
-			if end > next && len(buf)+len(w) > maxBatchBytes {
+			w := reqs[r].wire(from, to)
+			if end > cur && len(buf)+len(w) > maxBatchBytes {
 				break
 			}
 			buf = append(buf, w...)
-			end++
+			end += to - from
+			if to < len(out[r]) {
+				break // stopped in front of a decided sub-request
+			}
 		}
 		werr := make(chan error, 1)
 		go func() { _, e := s.in.Write(buf); werr <- e }()
 		tick := time.NewTicker(100 * time.Millisecond)
 		lastAnswer := time.Now()
-		dead, retired := false, false
-		for next < end && !dead {
+		dead := false
+		// culprit: the server died (or was killed) on the decode the progress page names
+		culprit := func(d death) {
+			st := s.prog.read()
+			at := cur // fallback: the first unanswered
+			if st.seq >= s.n {
+				lost := int(st.seq - s.n)
+				if cur+lost < end {
+					at = cur + lost
+					if st.decoding {
+						d.Mode = st.mode
+					}
+				}
+			}
+			dd := d
+			out[flat[at].r][flat[at].s] = res{died: &dd}
+			done[at] = true
+			deaths[flat[at].r]++
+			if at > cur {
+				c.Count("decodes_repeated_after_server_death", int64(at-cur))
+			}
+		}
+		for cur < end && !dead {
 			select {
 			case r := <-s.ch:
 				if r.err != nil {
@@ -445,37 +560,40 @@ func runBatch(sp **server, outDir string, reqs []req) ([][]res, error) {
 					if dbg {
 						fmt.Fprintf(os.Stderr, "DBG death after %v since last answer; diedHow %v; %s\n", t0.Sub(lastAnswer), time.Since(t0), d.Reason)
 					}
-					out[next][sub] = res{died: &d}
+					culprit(d)
+					c.Count("decode_servers_lost", 1)
 					dead = true
 					break
 				}
-				out[next][sub] = res{m: r.m}
-				s.lastCPU = r.cumCPU
+				out[flat[cur].r][flat[cur].s] = res{m: r.fr.m, fp: r.fr.fp, x: r.fr.x}
+				done[cur] = true
+				cur++
 				s.n++
 				lastAnswer = time.Now()
 				if r.retire {
 					// answered, and the server is leaving: the rest goes to a new one
 					s.in.Close()
 					s.cmd.Wait()
-					retired = true
+					c.Count("decode_servers_replaced_after_giant_allocation", 1)
 					dead = true
-					break
 				}
-				sub++
-				norm()
 			case <-tick.C:
-				if cpu, ok := procCPU(s.cmd.Process.Pid); ok && cpu-s.lastCPU > limit+limit/20 {
+				st := s.prog.read()
+				cpu, ok := procCPU(s.cmd.Process.Pid)
+				if ok && st.decoding && cpu-st.cpuStart > limit+limit/20 {
 					s.kill()
 					if limit >= cpuLimit {
 						ntPaid++
-						out[next][sub] = res{died: &death{Kind: "nonterminating", Reason: fmt.Sprintf("decode consumed more than %v of CPU without returning", cpuLimit)}}
+						culprit(death{Kind: "nonterminating", Reason: fmt.Sprintf("decode consumed more than %v of CPU without returning", cpuLimit)})
 					} else {
-						out[next][sub] = res{died: &death{Kind: "abandoned", Reason: fmt.Sprintf("decode abandoned after %v of CPU (this process had already paid for %d non-terminating decodes)", limit, ntFullPrice)}}
+						culprit(death{Kind: "abandoned", Reason: fmt.Sprintf("decode abandoned after %v of CPU (this process had already paid for %d non-terminating decodes)", limit, ntFullPrice)})
 					}
+					c.Count("decode_servers_lost", 1)
 					dead = true
 				} else if time.Since(lastAnswer) > stallLimit {
 					s.kill()
-					out[next][sub] = res{died: &death{Kind: "stall", Reason: fmt.Sprintf("no answer for %v of wall time while consuming less than %v of CPU", stallLimit, limit)}}
+					culprit(death{Kind: "stall", Reason: fmt.Sprintf("no answer for %v of wall time while consuming less than %v of CPU", stallLimit, limit)})
+					c.Count("decode_servers_lost", 1)
 					dead = true
 				}
 			}
@@ -483,15 +601,7 @@ func runBatch(sp **server, outDir string, reqs []req) ([][]res, error) {
 		tick.Stop()
 		if dead {
 			*sp = nil
-			os.Remove(s.errPath)
-			if retired {
-				c.Count("decode_servers_replaced_after_giant_allocation", 1)
-			} else {
-				c.Count("decode_servers_lost", 1)
-				deaths[next]++
-			}
-			sub++ // this (sub-)request has its result; continue after it
-			norm()
+			s.cleanup()
 			continue
 		}
 		<-werr
